@@ -40,9 +40,12 @@ DeltasRound == {[id |-> i, txs |-> SubSeq(Round(i), bm[1] + 1, bm[1] + bm[2])] :
 FullBlocksSmall == {b \in FullBlocksRound : b.id # MCBlank \/ Len(b.txs) = 0}
 DeltasSmall == {d \in DeltasRound : d.id # MCBlank}
 
+FullBlocksTiny == {b \in FullBlocksSmall : Len(b.txs) <= 1}
+DeltasTiny == {d \in DeltasSmall : Len(d.txs) = 1 /\ d.txs[1] \in {1, 3}}
+
 (* simulation alphabets: any transaction list *)
 SeqsUpTo(S, n) == UNION {[1..k -> S] : k \in 0..n}
-FullBlocksAny == {[id |-> i, txs |-> t] : i \in AllIds, t \in SeqsUpTo(MCTxIds, 3)}
+FullBlocksAny == {[id |-> i, txs |-> t] : i \in AllIds, t \in SeqsUpTo(MCTxIds, 2)}
 DeltasAny == {[id |-> i, txs |-> t] : i \in AllIds, t \in SeqsUpTo(MCTxIds, 2) \ {<<>>}}
 
 ClassSets0 == {{}}
